@@ -152,15 +152,17 @@ def in_place_loading(ctx, rep, rule: str) -> None:
     if t_arm is not None:
         copies = [c for s in t_arm.body for c in A.calls(s) if isinstance(c.func, ast.Attribute) and c.func.attr == "copy_"]
         rebinds = [n for s in t_arm.body for n in ast.walk(s) if isinstance(n, ast.Assign) and any(isinstance(t, ast.Name) and t.id == old for t in n.targets)]
-        ok = len(copies) == 1 and _norm(copies[0].func.value) in (f"{old}.detach()", old) and _norm(copies[0].args[0]) == new and not rebinds
+        # through detach(): an in-place copy into a leaf tensor that requires grad raises outside no_grad, and copying from a
+        # tensor that requires grad would otherwise turn the old tensor into a non-leaf with autograd history
+        ok = len(copies) == 1 and _norm(copies[0].func.value) == f"{old}.detach()" and _norm(copies[0].args[0]) == new and not rebinds
     rets = [n for n in A.walk_no_nested(load.node) if isinstance(n, ast.Return)]
     ret_old = all(isinstance(r.value, ast.Name) and r.value.id == old for r in rets) and bool(rets)
     rep.ob(rule, "tensor-arm-copies-into-old-tensor", ok and ret_old, load.loc(), f"tensor arm performs `{old}.detach().copy_({new})` without rebinding `{old}`, and every return yields `{old}` (tensor objects are never replaced, so the optimizer's lists stay aliased): copy={ok}, returns-old={ret_old}", sample=True)
     up = repo.func(f"{CKPT_MOD}:update_param_state_dict_object")
     copies = [c for c in A.calls(up.node) if isinstance(c.func, ast.Attribute) and c.func.attr == "copy_"]
     kvar, vvar = _item_loop_vars(up)
-    ok = len(copies) == 1 and _norm(copies[0].func.value) in (f"{vvar}.detach()", vvar) and _norm(copies[0].args[0]) == f"{up.params[1]}[{kvar}]"
-    rep.ob(rule, "param-state-tensor-copied-in-place", ok, up.loc(), "update_param_state_dict_object copies the loaded tensor into the existing state tensor")
+    ok = len(copies) == 1 and _norm(copies[0].func.value) == f"{vvar}.detach()" and _norm(copies[0].args[0]) == f"{up.params[1]}[{kvar}]"
+    rep.ob(rule, "param-state-tensor-copied-in-place", ok, up.loc(), "update_param_state_dict_object copies the loaded tensor into the existing state tensor, through detach() (works for tensors that require grad, records no autograd history)")
     # keyed lookup agreement: writer keys sequences by position (enumerate), dicts by key; the reader must look up the same keys
     save = A.worker(repo, om.methods["state_dict"])
     w_seq = any("enumerate(value)" in _norm(c) for c in A.calls(save.node, nested=True) if isinstance(c.func, ast.Name) and c.func.id == save.name)
